@@ -389,11 +389,12 @@ type machine struct {
 	chainsAt  int              // follow-up registrations of the log that are booked already
 	planned   map[keySite]bool // response follow-ups that are planned and not yet registered
 
-	ents   []world.EntSpec // what every peer announces
-	gone   []bool          // the peer's connection is removed at the moment
-	base   int             // goroutines alive when nothing is going on
-	abort  atomic.Bool     // a wedge was diagnosed: helper goroutines that still poll give up
-	inConc bool
+	ents    []world.EntSpec // what every peer announces
+	gone    []bool          // the peer's connection is removed at the moment
+	nRemote int             // features every peer announces (numbered 1..nRemote); the local feature on the sub entity has no own counterpart
+	base    int             // goroutines alive when nothing is going on
+	abort   atomic.Bool     // a wedge was diagnosed: helper goroutines that still poll give up
+	inConc  bool
 
 	ops        []string // abstract history (distinctness key, samples)
 	nontrivial bool
@@ -422,7 +423,7 @@ func funcSpecs(ft model.FeatureTypeType, role model.RoleType) []world.FuncSpec {
 // matching remote feature (same type, opposite role) for each of them under identical addresses.
 func newMachine(defs []featDef) *machine {
 	m := &machine{
-		w: world.New(), defs: defs, log: &callLog{},
+		w: world.New(), defs: append([]featDef(nil), defs...), log: &callLog{},
 		pending: map[key][]*reg{}, consumed: map[key]bool{}, siteEver: map[keySite]bool{},
 		resultCBs: map[int][]*reg{}, counters: map[uint64]bool{}, byData: map[string]*delivery{},
 		planned: map[keySite]bool{},
@@ -434,6 +435,18 @@ func newMachine(defs []featDef) *machine {
 		remote = append(remote, world.FeatSpec{ID: uint(i + 1), Type: d.ft, Role: opposite(d.role), Funcs: funcSpecs(d.ft, opposite(d.role))})
 		m.ops = append(m.ops, fmt.Sprintf("feature %d: %s %s", i, d.ft, d.role))
 	}
+	// the last local feature lives on the sub entity [1,1], added after its parent [1], and carries the same
+	// feature number, type and role as feature 0 of the parent (its counterpart on the peers is the same remote
+	// feature): a message addressed to one of the two must never reach the callbacks of the other
+	m.nRemote = len(defs)
+	sub := m.w.AddLocalEntity([]uint{1, 1}, model.EntityTypeTypeCompressor, time.Second)
+	nested := m.w.AddLocalFeature(sub, world.FeatSpec{Type: defs[0].ft, Role: defs[0].role, Funcs: funcSpecs(defs[0].ft, defs[0].role)})
+	if *nested.Address().Feature != *m.feats[0].Address().Feature {
+		panic(fmt.Sprintf("harness: the feature of the sub entity is numbered %d, feature 0 of the parent %d", *nested.Address().Feature, *m.feats[0].Address().Feature))
+	}
+	m.feats = append(m.feats, nested)
+	m.defs = append(m.defs, defs[0])
+	m.ops = append(m.ops, fmt.Sprintf("feature %d: %s %s with the number of feature 0, on the sub entity [1,1]", len(m.feats)-1, defs[0].ft, defs[0].role))
 	m.ents = []world.EntSpec{{Addr: []uint{1}, Type: model.EntityTypeTypeEVSE, Feats: remote}}
 	for i := 0; i < 2; i++ {
 		m.peers = append(m.peers, m.w.AddPeer(fmt.Sprintf("ski%d", i+1), fmt.Sprintf("d:_r:peer%d", i+1), m.ents))
@@ -565,7 +578,7 @@ func (m *machine) register(t world.TB, feat int, counter uint64, site int, fu *f
 // peer; the counter the request returned is what the application registers its callback for.
 func (m *machine) request(t world.TB, feat, peer int, fn model.FunctionType) uint64 {
 	p := m.peers[peer]
-	dest := p.Dev.FeatureByAddress(p.FA([]uint{1}, uint(feat+1)))
+	dest := p.Dev.FeatureByAddress(p.FA([]uint{1}, uint(feat%m.nRemote+1))) // (the sub entity's feature asks the counterpart of feature 0)
 	if dest == nil {
 		t.Fatalf("harness: peer %d has not announced the counterpart of feature %d", peer, feat)
 	}
@@ -1330,7 +1343,7 @@ func (m *machine) drawCounter(t *rapid.T, label string, max int) uint64 {
 func (m *machine) drawSpec(t *rapid.T, label string) spec {
 	s := spec{
 		peer: m.livePeer(rapid.IntRange(0, len(m.peers)-1).Draw(t, label+".peer")),
-		src:  rapid.IntRange(0, len(m.feats)-1).Draw(t, label+".src"),
+		src:  rapid.IntRange(0, m.nRemote-1).Draw(t, label+".src"),
 		dst:  rapid.IntRange(0, len(m.feats)-1).Draw(t, label+".dst"),
 		kind: rapid.SampledFrom([]string{kReply, kReply, kReply, kRejected, kResult0, kResultE}).Draw(t, label+".kind"),
 		ref:  m.drawCounter(t, label+".ref", 6), // 5 and 6 are rarely registered (only by a concurrent registration aiming at them)
